@@ -20,12 +20,12 @@ REACH = ["predict_rank", "_rank_data", "_arg_sort", "predict_draw"]
 
 def floors(tier):
     q = tier == "quick"
-    return {"shape": 10000 if q else 200000, "rank-order": 10000 if q else 200000, "sum-with-draw": 6000 if q else 120000,
-            "prob-tie": 1500 if q else 30000, "input-order": 10000 if q else 200000}
+    return {"shape": 10000 if q else 500000, "rank-order": 10000 if q else 500000, "sum-with-draw": 6000 if q else 300000,
+            "prob-tie": 1500 if q else 75000, "input-order": 10000 if q else 500000}
 
 
 def generate(ctx):
-    n = ctx.budget(16000, 300000)
+    n = ctx.budget(16000, 750000)
     for _ in range(n):
         r = ctx.rng.random()
         if r < 0.2:
